@@ -16,6 +16,7 @@ package partition
 
 import (
 	"github.com/jrivets/log4g"
+	"github.com/logrange/logrange/pkg/utils/verifhook"
 	"github.com/logrange/range/pkg/context"
 	"github.com/logrange/range/pkg/records/chunk"
 	"sync"
@@ -126,6 +127,7 @@ func (tir *tmirebuilder) doneWorker() {
 }
 
 func (tir *tmirebuilder) serve(src string, cid chunk.Id, force bool) {
+	verifhook.At("partition.tmirebuilder.beforeServe")
 	_, err := tir.parts.TIndex.GetJournalTags(src, true)
 	if err != nil {
 		tir.logger.Warn("Could not acquire partition ", src, ", the err=", err)
